@@ -44,7 +44,7 @@ pub fn evals(prop: &str) -> Vec<(&'static str, &'static str)> {
 
 pub fn rule(prop: &str) -> &'static str {
     match prop {
-        "C10" => "fault enumeration: for each well-formed base registry every entry id, every reference site and every field list receives one fault (wrong id / missing id / mixed fields), plus settings without compact / bits path, plus fault-free registries; non-trivial = distinct (registry, settings) with at least one generated item",
+        "C10" => "fault enumeration: for each well-formed base registry every entry id, every reference site and every field list receives one fault (wrong id / missing id / mixed fields), plus settings without compact / bits path, plus fault-free registries, plus the out-of-class stream outside:compact-field (compact fields with tuple / array / unit inner types: panic, model and implementation alike); non-trivial = distinct (registry, settings) with at least one generated item",
         "C06" => "pairs of runs on equal inputs: permuted / repeated builder histories and fresh settings objects; outputs must be token-identical; non-trivial = distinct pair with at least one generated item",
         "C09" => "pairs of settings differing in exactly one switch (root, docs, codec, alloc, compact path, bits path) over the arm-coverage corpus and random programs",
         "C17" => "pairs (registry, consistently renumbered registry) and (registry, retain()-ed sub-registry)",
@@ -73,6 +73,58 @@ fn all_on(reg: &PortableRegistry) -> SettingsSpec {
     let mut s = base_spec(reg);
     s.ops.push(OpSpec::DerivesAll(vec!["::codec::Encode".into(), "::codec::Decode".into(), "Debug".into()]));
     s
+}
+
+/// Deterministic registries with a namespaced item `m::S` whose single field has the type
+/// `Compact<X>` for X in { (u8,u8), [u8;2], (), Cow<(u8,u8)>, Vec<u8> (control), Cow<Vec<u8>> (control) },
+/// as a named field, a tuple-struct field, an enum variant field, and reached through a type
+/// parameter (`struct S<T> { #[codec(compact)] x: T }` instantiated with X: the inner type of the
+/// Compact entry resolves to the parameter `_0`, so the field prints `_0` and nothing panics).
+pub fn outside_compact_field() -> Vec<serde_json::Value> {
+    use serde_json::json;
+    let prim = |id: u32| json!({"id": id, "type": {"path": [], "params": [], "def": {"primitive": "u8"}, "docs": []}});
+    let plain = |id: u32, def: serde_json::Value| json!({"id": id, "type": {"path": [], "params": [], "def": def, "docs": []}});
+    // inner types: (name, entries after the u8 at id 0, id of X)
+    let inners: Vec<(&str, Vec<serde_json::Value>, u32)> = vec![
+        ("(u8, u8)", vec![plain(1, json!({"tuple": [0, 0]}))], 1),
+        ("[u8; 2]", vec![plain(1, json!({"array": {"len": 2, "type": 0}}))], 1),
+        ("()", vec![plain(1, json!({"tuple": []}))], 1),
+        ("Cow<'static, (u8, u8)>", vec![
+            plain(1, json!({"tuple": [0, 0]})),
+            json!({"id": 2, "type": {"path": ["Cow"], "params": [{"name": "T", "type": 1}],
+                   "def": {"composite": {"fields": [{"type": 1, "docs": []}]}}, "docs": []}}),
+        ], 2),
+        ("Vec<u8>", vec![plain(1, json!({"sequence": {"type": 0}}))], 1),
+        ("Cow<'static, Vec<u8>>", vec![
+            plain(1, json!({"sequence": {"type": 0}})),
+            json!({"id": 2, "type": {"path": ["Cow"], "params": [{"name": "T", "type": 1}],
+                   "def": {"composite": {"fields": [{"type": 1, "docs": []}]}}, "docs": []}}),
+        ], 2),
+    ];
+    let mut out = vec![];
+    for (name, entries, x) in &inners {
+        for shape in ["named", "unnamed", "variant", "param"] {
+            let mut types = vec![prim(0)];
+            types.extend(entries.iter().cloned());
+            let c = x + 1; // Compact<X>
+            types.push(plain(c, json!({"compact": {"type": x}})));
+            let item = c + 1;
+            let tn = if shape == "param" { "T".to_string() } else { format!("Compact<{name}>") };
+            let named = json!({"name": "x", "type": c, "typeName": tn, "docs": []});
+            let unnamed = json!({"type": c, "typeName": tn, "docs": []});
+            let (params, def) = match shape {
+                "named" => (json!([]), json!({"composite": {"fields": [named]}})),
+                "unnamed" => (json!([]), json!({"composite": {"fields": [unnamed]}})),
+                "variant" => (json!([]), json!({"variant": {"variants": [
+                    {"name": "A", "index": 0, "docs": [], "fields": [named]},
+                    {"name": "B", "index": 1, "docs": [], "fields": [unnamed]}]}})),
+                _ => (json!([{"name": "T", "type": x}]), json!({"composite": {"fields": [named]}})),
+            };
+            types.push(json!({"id": item, "type": {"path": ["m", "S"], "params": params, "def": def, "docs": []}}));
+            out.push(json!({"types": types}));
+        }
+    }
+    out
 }
 
 /// consistent renumbering of a registry by a permutation of its entries
@@ -178,6 +230,14 @@ pub fn cases(prop: &str, tier: &str, ctx: &mut Ctx, rng: &mut Rng) {
             }
             random_cases(ctx, rng, 150 * scale, &GenCfg::default(),
                          &SetCfg { derives: false, substitutes: false, switches: true, missing_paths: true });
+            // outside the class of C10 (clause compact_inner_okb of wf_regb): a compact FIELD whose inner
+            // type is a tuple / an array makes `to_syn_type` panic (`parse_quote!( #inner )` into a
+            // `syn::TypePath`).  The model must agree (corr_gen / corr_upcasts) and `hyp_wf` must be false
+            // on the panicking ones (otherwise `prop_wf_total` fails).
+            for rj in outside_compact_field() {
+                let reg = reggen::to_registry(&rj);
+                ctx.push_reg("outside:compact-field", &reg, Some(&rj), &base_spec(&reg));
+            }
         }
         "C06" => {
             let gc = GenCfg::default();
